@@ -173,6 +173,11 @@ def selection(ft, run, side, poly_callee, pt_slot, ft_slot, st_slot, own_pt):
     run.inst("C15.S1", side + "-one-polar-value", same, "triangle index and reflection flag are computed from the same polar value: helpers receive %s" % (
         [fmt(x)[:60] for x in handed.values()]), where(gft.span))
     polar_i = list(handed.values())[0] if handed else None
+    # the reflection flag itself must be a function of that polar value (the sector-reduced edge test): a flag read off
+    # anything else - the raw face coordinate, say - is decided in a different frame than the index
+    ref_from_polar = polar_i is not None and ref_t[0] not in ("const",) and any(strip_site(x) == strip_site(polar_i) for x in walk(ref_t))
+    run.inst("C15.S1", side + "-reflect-from-polar", ref_from_polar,
+             "reflection flag = %s; it must be a function of the polar value the triangle index is computed from (%s)" % (fmt(ref_t)[:60], fmt(polar_i)[:50] if polar_i is not None else "?"), where(gst.span))
 
     def is_idx(t):
         return strip_site(unq(t)) == strip_site(idx_t) and idx_t[0] not in ("const",)
